@@ -2,9 +2,9 @@ package main
 
 import (
 	"bytes"
-	"go/token"
 	"encoding/hex"
 	"fmt"
+	"go/token"
 	"go/types"
 	"math"
 	"math/big"
@@ -1102,7 +1102,9 @@ func init() {
 		}
 		return p, true
 	}
-	rangeErr := func(e *Exec, what string) Value { return e.newError("strconv."+what+": parsing symbolic decimal: value out of range or invalid syntax", nil) }
+	rangeErr := func(e *Exec, what string) Value {
+		return e.newError("strconv."+what+": parsing symbolic decimal: value out of range or invalid syntax", nil)
+	}
 	I["strconv.ParseUint"] = func(e *Exec, th *Thread, fn *ssa.Function, a []Value) Value {
 		if p, ok := symDecimal(a[0]); ok && e.concreteInt(a[1], "base") == 10 && e.concreteInt(a[2], "bits") == 64 {
 			if !p.uns && e.branch(e.ctx.SLt(p.t, e.intConst(64, 0))) {
@@ -1169,6 +1171,36 @@ func init() {
 			return e.rAbs(t)
 		}
 		return e.ctx.mk("fp.abs", FPSort, t)
+	}
+	// BLS (herumi, cgo) cannot be interpreted: keys and signatures are opaque handles and
+	// the outcome of a verification is a fresh symbolic boolean that the harness can read
+	// back (vnd.BLSVerifyCalls / BLSVerifyResult): what is decided is whether the code
+	// consults the verification and obeys it, not the pairing arithmetic.
+	const e2t = "github.com/wealdtech/go-eth2-types/v2."
+	I[e2t+"BLSPublicKeyFromBytes"] = func(e *Exec, th *Thread, fn *ssa.Function, a []Value) Value {
+		rt := fn.Signature.Results().At(0).Type()
+		if len(sliceArg(a[0])) != 48 {
+			return TupleV{e.zero(rt), e.newError("public key must be 48 bytes", nil)}
+		}
+		if bs, ok := e.concreteBytes(SliceV(sliceArg(a[0]))); ok && e.blsInvalid[string(bs)] {
+			// 48 bytes that are not a point of the curve (declared so by the harness: vnd.BLSInvalidKey)
+			return TupleV{e.zero(rt), e.newError("failed to deserialize public key: err blsPublicKeyDeserialize", nil)}
+		}
+		var cell Value = e.zero(rt.(*types.Pointer).Elem())
+		return TupleV{&cell, IfaceV{}}
+	}
+	I[e2t+"BLSSignatureFromBytes"] = func(e *Exec, th *Thread, fn *ssa.Function, a []Value) Value {
+		st := e.P.prog.ImportedPackage("github.com/wealdtech/go-eth2-types/v2").Type("BLSSignature").Type()
+		var cell Value = e.zero(st)
+		return TupleV{IfaceV{t: types.NewPointer(st), v: &cell}, IfaceV{}}
+	}
+	I["(*"+e2t+"BLSSignature).Verify"] = func(e *Exec, th *Thread, fn *ssa.Function, a []Value) Value {
+		if isNilValue(a[0]) || isNilValue(a[2]) {
+			panic(goPanic{msg: "invalid memory address or nil pointer dereference (BLS signature verification with a nil signature or public key)"})
+		}
+		r := e.ctx.Var(fmt.Sprintf("bls.verify#%d", len(e.blsVerifies)), BoolSort)
+		e.blsVerifies = append(e.blsVerifies, r)
+		return r
 	}
 	I["encoding/hex.DecodeString"] = func(e *Exec, th *Thread, fn *ssa.Function, a []Value) Value {
 		b, err := hex.DecodeString(e.goString(a[0], "hex.DecodeString"))
